@@ -102,7 +102,7 @@ DEFAULT_PROFILE: dict[str, Any] = {
     "multi_body_array": False,      # C03 finding: isinstance(body, list[...]) in the multi-body dispatch raises TypeError
     "const_float": True,            # C11 finding when False: Literal[1.5] is not a valid type
     "component_unions": False,      # top-level union / array component schemas (forward references inside them)
-    "multipart_const": False,       # C06 finding: const property inside a multipart body model crashes rendering
+    "multipart_const": True,        # was a C06 crash (fixed); switch kept for the regression replay
 }
 
 
